@@ -417,7 +417,7 @@ def ev(v):
 def calls(r, pat):
     """opaque call events of a path whose callee matches pat"""
     rx = re.compile(pat)
-    return [e for e in r['events'] if e[0] == 'call' and rx.search(e[1])]
+    return [e for e in flat_events(r['events']) if e[0] == 'call' and rx.search(e[1])]
 
 
 def call_index(r, pat):
